@@ -42,7 +42,9 @@ def run_gate_real(case):
     TMIN, TMAX, TOVL = wc.consts()
     CAP = 16
     cap = case['cap']
-    c = np.full((4 * CAP + cap, 1), TMAX, dtype=np.float32)
+    GUARD = 777.25
+    c = np.full((4 * CAP + cap + 4, 1), TMAX, dtype=np.float32)
+    c[4 * CAP + cap:] = GUARD       # guard rows behind the output region: must never be written
     for i, inp in enumerate(case['ins']):
         w = [wc.dec(t) for t in inp['w']]
         c[i * CAP:i * CAP + len(w), 0] = w
@@ -54,8 +56,15 @@ def run_gate_real(case):
                 d[0, i, p, q] = case['d'][i][2 * p + q] / wc.GRID
     nr, nf = wave_eval_cpu((case['lut'], 4, 0, 1, 2, 3, -1, 0, 0), c, np.arange(5) * CAP, np.array([CAP] * 4 + [cap]), 0, d,
                            np.asarray([0, 0], dtype=np.int32))
+    if not np.all(c[4 * CAP + cap:] == np.float32(GUARD)):
+        raise WroteBeyondCapacity(f'output waveform of capacity {cap} wrote behind its region')
     ents, term = wc.read_wave(c, 4 * CAP, cap, 0)
+    if term == '?': raise WroteBeyondCapacity(f'no terminator inside capacity {cap}')
     return ents, term, int(nr), int(nf)
+
+
+class WroteBeyondCapacity(Exception):
+    pass
 
 
 def gate_request(case):
@@ -83,12 +92,19 @@ def gate_oracle(case, ents, term):
 
 # ---------------------------------------------------------------- circuit level
 def circuit_case(rng, thorough=False):
-    c = circ.rand_circuit(rng, n_gates=rng.randint(1, 18 if not thorough else 50), allow_consts=True)
+    if rng.random() < 0.25:
+        c = circ.xor_tree(rng)        # long waveforms at the ports
+    else:
+        c = circ.rand_circuit(rng, n_gates=rng.randint(1, 18 if not thorough else 50), allow_consts=True,
+                              xor_bias=rng.choice([0.0, 0.4, 0.8]))
     n_lines = len(c.lines)
-    capmode = rng.choice(['u4', 'u8', 'u16', 'perline'])
+    capmode = rng.choice(['u4', 'u8', 'u16', 'perline', 'skewed', 'skewed'])
     caps = {'u4': 4, 'u8': 8, 'u16': 16}.get(capmode)
-    if caps is None:
+    if capmode == 'perline':
         caps = [rng.choice([4, 8, 12, 16]) for _ in range(n_lines + 3)]
+    elif capmode == 'skewed':     # small capacities on the low line indices, large ones elsewhere
+        k = len(c.s_nodes) + 2
+        caps = [4 if i < k else rng.choice([16, 20, 24]) for i in range(n_lines + 3)]
     return {'kind': 'circuit', 'circuit': base64.b64encode(pickle.dumps(c)).decode(), 'caps': caps,
             'dseed': rng.randint(0, 2**31 - 1), 'sseed': rng.randint(0, 2**31 - 1), 'sims': rng.choice([1, 2, 3, 5]),
             'strip': rng.random() < 0.3, 'reuse': rng.random() < 0.3, 'multi': rng.random() < 0.5,
@@ -123,7 +139,10 @@ def run_circuit(case):
 
 def eval_case(case):
     if case['kind'] == 'gate':
-        ents, term, nr, nf = run_gate_real(case)
+        try:
+            ents, term, nr, nf = run_gate_real(case)
+        except Exception as ex:
+            return False, {'raised': f'{type(ex).__name__}: {ex}'[:200]}, None
         return gate_oracle(case, ents, term)
     c, ws, reqs, ini, fin = run_circuit(case)
     TMIN = wc.consts()[0]
@@ -169,10 +188,17 @@ def corr_gate(ck, n):
     cases = [gate_case(ck.rng) for _ in range(n)]
     reals = []
     for cs in cases:
-        ents, term, nr, nf = run_gate_real(cs)
-        reals.append(f"{','.join(wc.enc(t) for t in ents)} {term} {nr} {nf}")
+        try:
+            ents, term, nr, nf = run_gate_real(cs)
+            reals.append(f"{','.join(wc.enc(t) for t in ents)} {term} {nr} {nf}")
+        except Exception as ex:
+            reals.append(f'RAISED {type(ex).__name__}: {ex}'[:200])
     out = common.run_driver([gate_request(cs) for cs in cases])
     for cs, r, m in zip(cases, reals, out):
+        if r.startswith('RAISED'):
+            ck.case(key=('gate', json.dumps(cs, sort_keys=True)), sample={'gate': cs, 'result': r}, tag=['gate', 'gate-raised'])
+            ck.violation('wave-gate', 'wave_eval_cpu raised or wrote outside the capacity of its output waveform', cs, {'raised': r}, {'model': m})
+            continue
         ovl = ' O ' in (' ' + r + ' ')
         ck.case(key=('gate', json.dumps(cs, sort_keys=True)), nontrivial=any(ch.isdigit() for ch in r.split(' ')[0]),
                 sample={'gate': cs, 'result': r}, tag=['gate', 'gate-overflow' if ovl else 'gate-no-overflow', f"cap:{cs['cap']}"])
@@ -219,7 +245,7 @@ def corr_circuit(ck, n, thorough=False):
 
 def run(ck):
     ck.prove([], TARGETS, theorems())
-    ng, nc = (1500, 40) if ck.tier == 'quick' else (30000, 600)
+    ng, nc = (1500, 150) if ck.tier == 'quick' else (30000, 2000)
     corr_gate(ck, ng)
     corr_circuit(ck, nc, ck.tier == 'thorough')
     if ck.broken and not ck.violations:
